@@ -175,6 +175,13 @@ def stress(ctx, thorough):
                 raise vf.MachineryError("tamper test: Trace_Ledger accepted a history in which an over-cap debit "
                                         "was accepted (binding lost)")
             info["tamper_rejected"] = True
+    # the first debits of a tree released together (the CAS window)
+    rounds_race = 30000 if not thorough else 300000
+    resr = ctx.go_driver("./c12", "TestLedgerCapRace", {"rounds": rounds_race, "procs": 8}, name="ledger_race", timeout=900)
+    ctx.take_driver_result(resr, "[ledger cap race] ")
+    ctx.cov["replay"]["ledger_cap_race"] = {"rounds": rounds_race, "debits": resr.get("counters", {}).get("debits", 0)}
+    if not resr.get("violations") and resr.get("counters", {}).get("debits", 0) < rounds_race * 8:
+        raise vf.MachineryError("ledger cap race did not run all rounds")
     ctx.cov["traces_validated_against_impl"] += ok_traces
     if ok_traces == 0 and not ctx.violations:
         raise vf.MachineryError("no recorded ledger history was accepted by Trace_Ledger (binding lost)")
@@ -184,8 +191,9 @@ def model_check(ctx, thorough):
     quick = [("MC_EnforceDebit3.cfg", 4), ("MC_EnforceLocal2.cfg", 4), ("MC_EnforceLife2.cfg", 4),
              ("MC_ShadowDebit3.cfg", 2), ("MC_ShadowLocal2.cfg", 2), ("MC_ShadowLife2.cfg", 4),
              ("MC_OffDebit3.cfg", 2), ("MC_OffLife2.cfg", 2)]
-    full = quick + [("MC_EnforceAll2.cfg", 8), ("MC_ShadowAll2.cfg", 8), ("MC_OffAll2.cfg", 4), ("MC_EnforceDirect2.cfg", 8),
-                    ("MC_ShadowDirect2.cfg", 8), ("MC_EnforceLife3.cfg", 8), ("MC_ShadowLife3.cfg", 8)]
+    full = quick + [("MC_EnforceAll2.cfg", 6), ("MC_ShadowAll2.cfg", 6), ("MC_OffAll2.cfg", 4), ("MC_EnforceDirect2.cfg", 6),
+                    ("MC_ShadowDirect2.cfg", 6), ("MC_EnforceLife3.cfg", 8), ("MC_ShadowLife3.cfg", 8), ("MC_OffLife3.cfg", 4),
+                    ("MC_EnforceDebit3x3.cfg", 6), ("MC_ShadowDebit3x3.cfg", 6)]
     # -coverage on two configs that together contain every action of the model
     cov = {"MC_EnforceLife2.cfg": {"ShadowAdd", "CheckLocal", "LocalEnter"},
            "MC_ShadowLocal2.cfg": {"Load", "CAS", "MarkFirst", "RetainStart", "RetainEnter", "RetainLoad", "RetainCAS",
@@ -201,6 +209,38 @@ def model_check(ctx, thorough):
                 tag="negative", count=False)
     if r.violated != "AcceptedNeverExceedsCap":
         raise vf.MachineryError("negative config MC_NegGt did not violate AcceptedNeverExceedsCap (got %s)" % r.violated)
+
+
+def replay_core(ctx, path):
+    """bin/check C12 --replay <file>: re-run exactly the recorded failing case."""
+    with open(path) as f:
+        rec = json.load(f)
+    rp = rec.get("replay", rec)
+    drv = rp.get("driver")
+    if drv == "ledger-replay":
+        ctx.seed = int(rec.get("seed", ctx.seed))
+        # the kind mapping is chosen by (behaviour index + seed); put the behaviour at the same residue
+        idx = {"network": 0, "dnssec": 1, "mixed": 2}[rp["kinds"]]
+        pad = (idx - ctx.seed) % 3
+        filler = {"id": "pad", "ops": []}
+        inp = {"mode": rp["mode"], "lazy": rp["lazy"], "caps": rp["caps"],
+               "behaviours": [filler] * pad + [rp["behaviour_full"]]}
+        res = ctx.go_driver("./c12", "TestLedgerReplay", inp, name="replay_ledger", timeout=600)
+    elif drv == "ledger-race":
+        ctx.seed = int(rp.get("seed", ctx.seed))
+        res = ctx.go_driver("./c12", "TestLedgerCapRace", {"rounds": int(rp.get("round", 0)) + 6000, "procs": rp.get("procs", 8)},
+                            name="replay_race", timeout=900)
+    elif drv == "ledger-stress":
+        ctx.seed = int(rp.get("seed", ctx.seed))
+        inp = {"mode": rp["mode"], "lazy": rp["lazy"], "caps": rp["caps"], "rounds": int(rp.get("round", 0)) + 25,
+               "procs": 32, "ops": 40, "traceOut": ""}
+        res = ctx.go_driver("./c12", "TestLedgerStress", inp, name="replay_stress", timeout=900)
+    else:
+        raise vf.MachineryError("replay file %s: unknown driver %r" % (path, drv))
+    ctx.take_driver_result(res, "[replay] ")
+    ctx.cov["states"] = max(1, ctx.cov["states"])
+    ctx.cov["transitions"] = max(1, ctx.cov["transitions"])
+    ctx.cov["replay"]["replayed_file"] = path
 
 
 def run_core(ctx):
